@@ -30,6 +30,7 @@ MAX_TEXT = 50_000  # never produce texts beyond this size
 FOOTER = '\n\n__version__ = "dummy"\n__xml_namespace__ = "https://dummy.com"\n'
 
 HOSTILE_PATTERNS = [
+    "^a$|", "^(a|b)$|", "|^a$", "^a$||^b$", "^a$|b", "a|^b$", "^a|b$", "^$|", "||", "^(|)$|",
     "^*", "{", "}", "{3,1}", "a{3,1}", "[a-b-c]", "[^\U0001F600]", "a{\u00b2}", "[]",
     "[^]", "(", ")", "\\", "^a|b$", "^a$|^b$", "a", "^a", "a$", "", "^$", "^^a$$",
     "^(a$", "^a)$", "^[a$", "^a]$", "^a{$", "^a{1$", "^a{1,$", "^a{,1}$", "^a{1,2,3}$",
